@@ -2,7 +2,7 @@
 """Regenerates /verif/MANIFEST.json from the table below (kept next to the checks so it stays current)."""
 import json, os
 V = os.path.dirname(os.path.dirname(os.path.abspath(__file__)))
-HOOK_COMMITS = ["5bcc5429dd1e90a0848501ba74ca0c385f7c7517"]
+HOOK_COMMITS = ["5bcc5429dd1e90a0848501ba74ca0c385f7c7517", "48f8a22064b2c66818c6d72d33e6f41b25392330"]
 
 CHECKS = {
  "C12": dict(cat="model_checking", ref="DESIGN.md section 5, C12",
